@@ -40,6 +40,7 @@ type class struct {
 // finding ids (proposed entries of known_findings.json)
 const (
 	fPanicPositions   = "C05-panic-positions-out-of-step"
+	fPanicIndic       = "C05-panic-indic-final-reordering"
 	fReverseGraphemes = "C05-reverse-graphemes-cluster-level"
 	fVOrigin          = "C05-vorigin-variable-no-vmtx"
 	fCmapZero         = "C05-cmap-glyph-zero-found"
@@ -68,7 +69,7 @@ type fontFacts struct {
 	noArabicGSUB    bool // GSUB has none of the Arabic positional features
 	arabicMarkLig   bool // the fallback mark-ligature lookup of the port would be non-empty
 	mapsNUL         bool // U+0000 is mapped to a glyph
-	hasOutlines     bool // glyf, CFF or CFF2
+	monoBitmaps     bool // EBLC/EBDT or bloc/bdat strikes (not read by the reference's font functions)
 	hasVORG         bool
 	featureVarTable bool
 }
@@ -105,9 +106,9 @@ func facts(fe *fontEntry) *fontFacts {
 		}
 	}
 	f.mapsNUL = has(0)
-	f.hasOutlines = fe.traits.Glyf || fe.traits.CFF || fe.traits.CFF2
 	if lds, err := corpus.Loaders(fe.rel); err == nil && fe.index < len(lds) {
 		f.hasVORG = lds[fe.index].HasTable(ot.MustNewTag("VORG"))
+		f.monoBitmaps = lds[fe.index].HasTable(ot.MustNewTag("EBLC")) || lds[fe.index].HasTable(ot.MustNewTag("bloc"))
 	}
 	f.featureVarTable = len(fe.face.GSUB.FeatureVariations) > 0 || len(fe.face.GPOS.FeatureVariations) > 0
 	return f
@@ -259,6 +260,11 @@ func knownPanic(fe *fontEntry, c *Case, err error) string {
 		(strings.HasSuffix(pe.stack[0], "reverseRange") || strings.HasSuffix(pe.stack[0], "deleteGlyphsInplace")) && ev.Known(fPanicPositions) {
 		return fPanicPositions
 	}
+	// finding (also C01-indic-final-reordering-base-at-end): info[base] read with base == end in
+	// finalReorderingSyllableIndic (user feature 'pref' on a syllable ending in a halant).
+	if strings.Contains(pe.val, "index out of range") && len(pe.stack) > 0 && strings.HasSuffix(pe.stack[0], "finalReorderingSyllableIndic") && ev.Known(fPanicIndic) {
+		return fPanicIndic
+	}
 	return ""
 }
 
@@ -312,16 +318,11 @@ func triage(fe *fontEntry, c *Case, got portResult, want refResult) class {
 	if got.Script == language.Arabic && f.noArabicGSUB && (f.arabicMarkLig || f.mapsNUL) {
 		return class{sArabicFallback, true}
 	}
-	// finding: reverseGraphemes merges clusters for cluster level 0 instead of level 1
-	// (upstream: cluster_level == MONOTONE_CHARACTERS): non-monotone clusters at level 1.
-	if c.Cluster == 1 && graphemesReversed(got.Script, got.Dir) && sameOn(port, ref, fID|fAdvance|fOffset) && ev.Known(fReverseGraphemes) {
-		return class{fReverseGraphemes, true}
-	}
 	// skew: the port's USE table (generated from the corpus module's port of gen-use-table.py:
 	// "|| UGC == Cn") classes unassigned code points as WJ, which never starts a cluster, so a
 	// following mark forms a broken cluster and gets a dotted circle; libharfbuzz 6.0.0 classes
 	// them O. Weaker predicate: equal glyph ids once dotted circles are removed.
-	if dc, ok := fe.face.NominalGlyph(0x25CC); ok {
+	if dc, ok := fe.face.NominalGlyph(0x25CC); ok && len(port) != len(ref) {
 		hasCn := false
 		for _, r := range c.item() {
 			if !isAssigned(r) {
@@ -339,7 +340,7 @@ func triage(fe *fontEntry, c *Case, got portResult, want refResult) class {
 				return out
 			}
 			a, b := strip(port), strip(ref)
-			same := len(a) == len(b) && len(port) != len(ref)
+			same := len(a) == len(b)
 			for i := 0; same && i < len(a); i++ {
 				same = a[i] == b[i]
 			}
@@ -348,50 +349,93 @@ func triage(fe *fontEntry, c *Case, got portResult, want refResult) class {
 			}
 		}
 	}
+
+	// The remaining classes leave the glyph sequence alone and change some fields only. Several
+	// can apply to one case (e.g. bottom-to-top text at cluster level 1 with variations), so each
+	// class whose structural precondition holds contributes the fields it is known to disturb and
+	// the comparison is repeated on the rest.
+	if len(port) != len(ref) {
+		return class{}
+	}
+	var allowed fieldMask
+	var offsetTol int32
+	var ids []string
+	add := func(id string, m fieldMask) {
+		allowed |= m
+		ids = append(ids, id)
+	}
+	vertical := got.Dir == harfbuzz.TopToBottom || got.Dir == harfbuzz.BottomToTop
+	// finding: reverseGraphemes merges clusters for cluster level 0 instead of level 1
+	// (upstream: cluster_level == MONOTONE_CHARACTERS): non-monotone clusters at level 1.
+	if c.Cluster == 1 && graphemesReversed(got.Script, got.Dir) && !sameOn(port, ref, fCluster) && ev.Known(fReverseGraphemes) {
+		add(fReverseGraphemes, fCluster)
+	}
 	// finding: Arabic "modifier combining marks" of class 220 are renumbered to the class of
 	// the 230 ones (typo mcc26 for mcc22): fallback positioning puts them above.
 	for _, r := range c.item() {
-		if mcmBelow[r] && sameOn(port, ref, fID|fCluster|fAdvance) && ev.Known(fArabicMCM) {
-			return class{fArabicMCM, true}
+		if mcmBelow[r] && ev.Known(fArabicMCM) {
+			add(fArabicMCM, fOffset)
+			break
 		}
 	}
-	vertical := got.Dir == harfbuzz.TopToBottom || got.Dir == harfbuzz.BottomToTop
 	// finding: vertical origin of a variable glyf font without vmtx/VORG: upstream derives the top
 	// side bearing from the phantom points as soon as coordinates are set; the port only when vmtx
 	// exists (y origin differs by hundreds of units).
-	if vertical && coordsSet(got) && fe.traits.Glyf && !fe.traits.Vertical && !f.hasVORG && sameOn(port, ref, fID|fCluster|fAdvance) && ev.Known(fVOrigin) {
-		return class{fVOrigin, true}
+	if vertical && coordsSet(got) && fe.traits.Glyf && !fe.traits.Vertical && !f.hasVORG && ev.Known(fVOrigin) {
+		add(fVOrigin, fOffset)
 	}
 	// root cause "the font functions disagree on the extents of a glyph of the output": fallback
 	// mark positioning is computed from the extents.
-	if got.font != nil && sameOn(port, ref, fID|fCluster) {
+	if got.font != nil && sameOn(port, ref, fID) {
 		d := extentsDiffer(fe, c, got, port, ref)
 		resetRef(fe)
 		switch {
 		case !d.any:
-		case d.refNone && !f.hasOutlines:
+		case d.refNone && f.monoBitmaps:
 			// loader: the port reads extents from monochrome bitmap strikes (EBDT/bdat, ppem 0);
-			// the reference's ot font functions have no extents for a bitmap-only font.
-			return class{lBitmapOnly, true}
+			// the reference's ot font functions do not read those tables and have no extents for a
+			// glyph without outline (and then only zero the mark advances).
+			add(lBitmapOnly, fOffset|fAdvance)
 		case d.emptyGlyph && ev.Known(fEmptyExtents):
 			// finding: an empty glyf glyph gets XBearing = lsb instead of zero extents.
-			return class{fEmptyExtents, true}
-		case d.within1 && coordsSet(got) && offsetsWithin(port, ref, 2) && ev.Known(fVarRounding):
-			return class{fVarRounding, true}
+			add(fEmptyExtents, fOffset)
+		case d.within1 && coordsSet(got) && ev.Known(fVarRounding):
+			offsetTol = 2
+			ids = append(ids, fVarRounding)
 		case (d.portNone || !d.within1) && !d.emptyGlyph && ev.Known(fExtentsOther):
-			// finding (owned by C10): no extents for CFF2 variable glyphs, zero extents for one
-			// TrueType glyph, ...
-			return class{fExtentsOther, true}
+			// finding (owned by C10): no extents for CFF2 variable glyphs, COLR clip boxes, ...
+			add(fExtentsOther, fOffset)
 		}
 	}
 	// finding: rounding of variable-font metrics (vertical origin x = advance/2 computed on the
 	// unrounded advance, y from truncated extents; extents width/height rounded separately): the
 	// port follows an older upstream convention pinned by its own ported unit tests
 	// (TestAdvanceTtVarCompV expects 291/1012 where libharfbuzz 6.0.0 gives 292/1013).
-	if coordsSet(got) && fe.traits.Glyf && offsetsWithin(port, ref, 2) && ev.Known(fVarRounding) {
-		return class{fVarRounding, true}
+	if coordsSet(got) && fe.traits.Glyf && offsetTol == 0 && allowed&fOffset == 0 && ev.Known(fVarRounding) {
+		offsetTol = 2
+		ids = append(ids, fVarRounding)
 	}
-	return class{}
+	if len(ids) == 0 {
+		return class{}
+	}
+	must := (fID | fCluster | fAdvance | fOffset) &^ allowed
+	if offsetTol > 0 {
+		must &^= fOffset // compared with the tolerance below
+	}
+	if !sameOn(port, ref, must) {
+		return class{}
+	}
+	if allowed&fOffset == 0 {
+		for i := range port {
+			if abs32(port[i].XOff-ref[i].XOff) > offsetTol || abs32(port[i].YOff-ref[i].YOff) > offsetTol {
+				return class{}
+			}
+		}
+	}
+	for _, id := range ids[1:] {
+		ev.Excluded(id)
+	}
+	return class{ids[0], true}
 }
 
 func triageAdvance(fe *fontEntry, c *Case, gid uint32, port, ref int32) string { return "" }
@@ -400,7 +444,7 @@ func triageExtents(fe *fontEntry, c *Case, gid uint32, pe harfbuzz.GlyphExtents,
 	f := facts(fe)
 	within1 := pok && rok && abs32(pe.XBearing-re.XBearing) <= 1 && abs32(pe.YBearing-re.YBearing) <= 1 && abs32(pe.Width-re.Width) <= 1 && abs32(pe.Height-re.Height) <= 1
 	switch {
-	case pok && !rok && !f.hasOutlines:
+	case pok && !rok && f.monoBitmaps:
 		return lBitmapOnly
 	case pok && rok && re == (hbref.Extents{}) && pe.Width == 0 && pe.Height == 0 && pe.YBearing == 0 && ev.Known(fEmptyExtents):
 		return fEmptyExtents
